@@ -518,6 +518,7 @@ func main() {
 		default:
 			fmt.Fprintln(w, "?")
 		}
+		w.Flush() // a case that crashes or hangs the program must not take the earlier results with it
 	}
 }
 `
